@@ -343,7 +343,14 @@ def c05(ctx):
             cmds.append(fn % (hx(b"pass"), hx(s)))
     ev2 = ctx.run_xcv(cmds)
     v2 = judge(ctx, ev2, "grid", cfgev)
-    cov = mc_coverage(ctx, st, tr, [v1, v2], events + ev2,
+    # the other build option: without failure tokens crypt/crypt_r return NULL on failure
+    st3, tr3 = model_check(ctx, ["XCryptMC_noft.cfg"])
+    ctx.build("noft")
+    cfg3 = config_event(ctx, "noft")
+    ev3 = ctx.run_xcv(concretize(ctx, behs[: (25 if quick else 200)], cfg3["E"]), flavour="noft")
+    v3 = judge(ctx, ev3, "noft", cfg3)
+    st, tr = st + st3, tr + tr3
+    cov = mc_coverage(ctx, st, tr, [v1, v2, v3], events + ev2 + ev3,
                       {"behaviours_replayed": len(behs), "byte_grid_points": ngrid,
                        "predicates": ["FailClosed", "NoStale", "Token", "ShortSizes"]})
     return "model_checking", cov, ASSUME_COMMON
